@@ -1,0 +1,18 @@
+//go:build verif
+
+package syntax
+
+// VerifTopoSort runs topoSort on one single-field entry per identity and returns the identities in the
+// resulting order (read-only wrapper for /verif).
+func VerifTopoSort(ids []string, g [][]int) []string {
+	list := make([][]*field, len(ids))
+	for i, id := range ids {
+		list[i] = []*field{{identity: id}}
+	}
+	topoSort(list, g)
+	ret := make([]string, len(list))
+	for i, fs := range list {
+		ret[i] = fs[0].identity
+	}
+	return ret
+}
